@@ -111,7 +111,7 @@ MISSING_MSG = re.compile(r"Missing a link between residue (\S+) (\S+) and residu
 
 
 class _LoggerProxy:
-    """stands in for gen_itp.LOGGER: records the warnings (the check runs with logging switched off) and forwards everything"""
+    """stands in for gen_itp.LOGGER: records the warnings (whether or not the logging system is switched on) and forwards everything"""
 
     def __init__(self, orig, sink):
         self._orig, self._sink = orig, sink
@@ -128,6 +128,100 @@ class _LoggerProxy:
         return getattr(self._orig, name)
 
 
+LEVELS = ("info", "warning", "error")
+
+
+def _level_name(levelno):
+    import logging
+    return "error" if levelno >= logging.ERROR else "warning" if levelno >= logging.WARNING else "info" if levelno >= logging.INFO else None
+
+
+class _LogTap:
+    """the message state of this PROCESS as the harness sees it: how many info / warning / error records went through the logging
+    system since the process started (a handler on the root logger; it only counts)"""
+    instance = None
+
+    @classmethod
+    def get(cls):
+        import logging
+        if cls.instance is None or cls.instance.pid != os.getpid():
+            tap = cls()
+            tap.pid = os.getpid()
+            tap.counts = {lv: 0 for lv in LEVELS}
+
+            class Handler(logging.Handler):
+                def emit(self, record):
+                    lv = _level_name(record.levelno)
+                    if lv:
+                        tap.counts[lv] += 1
+            tap.handler = Handler(level=1)
+            logging.getLogger().addHandler(tap.handler)
+            cls.instance = tap
+        return cls.instance
+
+    def snapshot(self):
+        return dict(self.counts)
+
+
+class live_logging:
+    """The command line runs with its logging system switched on (console handler, polyply's counting handler); the workers of the
+    harness run with logging disabled.  Inside this context the process logs as the command line does: every record reaches the
+    handlers of the `polyply` logger; only the console streams (and stdout) are pointed at a null sink.  Whatever the code under
+    test keeps about logged messages (counts by level, ...) therefore accumulates over all runs of the process."""
+
+    def __enter__(self):
+        import logging
+        import polyply.src.logging      # attaches the handlers the command line has (bin/polyply imports it too)
+        self.tap = _LogTap.get()
+        self.before = self.tap.snapshot()
+        self.prev = logging.root.manager.disable
+        logging.disable(logging.NOTSET)
+        self.null = open(os.devnull, "w")
+        self.swapped = []
+        for lg in (logging.getLogger("polyply"), logging.getLogger("vermouth"), logging.getLogger()):
+            for h in lg.handlers:
+                if isinstance(h, logging.StreamHandler) and not isinstance(h, logging.FileHandler):
+                    self.swapped.append((h, h.setStream(self.null)))
+        self.stdout = sys.stdout
+        sys.stdout = self.null
+        return self
+
+    def __exit__(self, *exc):
+        import logging
+        sys.stdout = self.stdout
+        for h, old in self.swapped:
+            if old is not None:
+                h.setStream(old)
+        self.null.close()
+        logging.disable(self.prev)
+        after = self.tap.snapshot()
+        self.logged = {lv: after[lv] - self.before[lv] for lv in LEVELS}
+        return False
+
+
+class _NoLogging:
+    before = logged = None
+
+    def __enter__(self):
+        return self
+
+    def __exit__(self, *exc):
+        return False
+
+
+def carried_messages(molecule):
+    """how many [ info ] / [ warning ] / [ error ] messages the applied blocks and links attached to the molecule"""
+    res = {lv: 0 for lv in LEVELS}
+    try:
+        for levelno, entries in molecule.log_entries.items():
+            lv = _level_name(int(levelno))
+            if lv:
+                res[lv] += len(entries)
+    except Exception:
+        pass
+    return res
+
+
 class Capture:
     """wraps the writer call, the missing-link query and the logger of gen_params (no hooks inside the repository)"""
 
@@ -137,6 +231,7 @@ class Capture:
         self.vitp, self.gi = vitp, gi
         self.orig_write, self.orig_missing, self.orig_logger = vitp.write_molecule_itp, gi.find_missing_edges, gi.LOGGER
         self.built = None
+        self.msgs = None
         self.req = None
         self.warnings = []
         self.stage = "start"
@@ -148,6 +243,7 @@ class Capture:
                 cap.built = project_molecule(molecule, k.get("moltype", a[1] if len(a) > 1 else None))
             except Exception as exc:   # the projection must never mask the code under test
                 cap.built = {"error": "%s: %s" % (type(exc).__name__, exc)}
+            cap.msgs = carried_messages(molecule)
             res = cap.orig_write(molecule, outfile, *a, **k)
             cap.stage = "writer returned"
             return res
@@ -174,10 +270,12 @@ class Capture:
         self.vitp.write_molecule_itp, self.gi.find_missing_edges, self.gi.LOGGER = self.orig_write, self.orig_missing, self.orig_logger
 
 
-def run_command(argv, cwd, keep_existing=False):
+def run_command(argv, cwd, keep_existing=False, live_log=False):
     """`polyply gen_params ...` exactly as the command line runs it (bin/polyply main()), in this process.
     Returns the observation record (without the read-back part).  keep_existing: an output file of an earlier run is left in place
-    (histories: the command overwrites it); "written" then means that the file at the path is a new one."""
+    (histories: the command overwrites it); "written" then means that the file at the path is a new one.
+    live_log: the logging system is on during the run, as it is for the command line (see live_logging); the record then has
+    "seen" (records by level this process had logged before the run) and "logged" (records by level of this run)."""
     from vermouth.file_writer import DeferredFileWriter
     out = None
     for i, tok in enumerate(argv):
@@ -199,11 +297,13 @@ def run_command(argv, cwd, keep_existing=False):
     old_argv, old_cwd = sys.argv, os.getcwd()
     cap = Capture()
     rec = {"argv": list(argv), "name": name, "out": str(out), "exception": "", "accepted": False}
+    log = live_logging() if live_log else _NoLogging()
     try:
         os.chdir(cwd)
         sys.argv = [str(polyply_script())] + list(argv[1:])
         try:
-            runpy.run_path(str(polyply_script()), run_name="__main__")
+            with log:
+                runpy.run_path(str(polyply_script()), run_name="__main__")
         except SystemExit as exc:
             if exc.code not in (0, None):
                 rec["exception"] = "SystemExit(%r)" % (exc.code,)
@@ -224,6 +324,8 @@ def run_command(argv, cwd, keep_existing=False):
     rec["stage"] = cap.stage
     rec["accepted"] = cap.stage != "start"          # mapping and link application passed
     rec["built"] = cap.built
+    rec["msgs"] = cap.msgs or {lv: 0 for lv in LEVELS}
+    rec["seen"], rec["logged"] = log.before, log.logged
     rec["req"] = cap.req
     rec["missing"] = cap.missing() if cap.stage != "start" else None
     rec["written"] = out.exists()
@@ -290,9 +392,9 @@ def read_into(force_field, itp_path, name):
         return {"read_error": "MetaMolecule.from_itp (force field in use): %s: %s" % (type(exc).__name__, exc)}
 
 
-def observe(argv, wd):
+def observe(argv, wd, live_log=False):
     """run the command in directory wd and read the output back; one record of the I->S trace"""
-    rec = run_command(adapt_argv(argv, wd), wd)
+    rec = run_command(adapt_argv(argv, wd), wd, live_log=live_log)
     if rec["written"]:
         rec.update(read_back(rec["out"], rec["name"], wd))
         rec["lines"] = tokenise(rec["text"])
@@ -310,11 +412,22 @@ def _meta(x, version):
     return json.dumps(m)
 
 
-def render_case(mol, variant=0):
+def message_section(lv, where):
+    """a message section of a block or a link: [ info ] / [ warning ] / [ error ] followed by the text (no braces: the text is a format)"""
+    return ["[ %s ]" % lv, "verif: the force field attaches this %s message to %s" % (lv, where)]
+
+
+def render_case(mol, variant=0, msg=None):
     """abstract molecule -> (.ff text, residue-graph JSON).  Blocks hold the atoms (same name => same block); every interaction and
     every atom-level edge is made by one link whose atoms are selected by atom name, residue name and a per-residue tag, so that it
     applies exactly once; the links carry the edges of the requested graph among their residues (polyply matches links on those).
-    variant 1 puts the guards into #meta lines instead of the inline JSON."""
+    variant 1 puts the guards into #meta lines instead of the inline JSON.
+    msg = {"lv": info|warning|error, "on": block|link}: the force field carries a message section of that level - on every residue
+    block, or on one of the links (all of them are applied) - as force fields do to comment on / warn about / flag what they describe."""
+    on_link = None
+    if msg and msg.get("lv") in LEVELS:
+        nitems = len(mol["inter"]) + len(mol["edges"])
+        on_link = (variant % nitems) + 1 if (msg["on"] == "link" and nitems) else 0      # 0: on the blocks
     atoms = mol["atoms"]
     resids = []
     for a in atoms:
@@ -342,6 +455,8 @@ def render_case(mol, variant=0):
             elif a["mass"] != "":
                 cols += ' {"mass": %s}' % a["mass"]
             out.append(cols)
+        if on_link == 0:
+            out.extend(message_section(msg["lv"], "residue %s" % rn))
         out.append("")
     redges = {frozenset(e) for e in mol["redges"]}
 
@@ -392,6 +507,8 @@ def render_case(mol, variant=0):
             out.append("[ edges ]")
             for e in ledges:
                 out.append(" ".join(ref(i, rs)[0] for i in e))
+        if on_link == n:
+            out.extend(message_section(msg["lv"], "the atoms of link %d" % n))
         out.append("")
     ordinal = {rid: k for k, rid in enumerate(resids)}
     g = {"directed": False, "multigraph": False, "graph": {},
@@ -576,6 +693,35 @@ def random_polymer(rng, exotic=True):
          "edges": [{"source": a, "target": b} for a, b in sorted(edges)]}
     g["links"] = g["edges"]
     return "\n".join(out) + "\n", json.dumps(g), {"sequence": seq, "edges": sorted(edges), "unlinked": [sorted(p) for p in unlinked]}
+
+
+def add_messages(ff_text, rng, lv=None):
+    """(.ff text with message sections, description): [ info ] / [ warning ] / [ error ] sections appended to residue blocks and / or
+    links of a force field text whose blocks and links end with an empty line (random_polymer's do)"""
+    lv = lv or rng.choice(LEVELS)
+    on = rng.choice(["block", "link", "link", "both"])
+    lines = ff_text.split("\n")
+    out, ctx, count = [], None, {"block": 0, "link": 0}
+    for line in lines + [""]:
+        head = line.strip()
+        if head == "" and ctx is not None:
+            if (on in (ctx, "both")) and (ctx == "block" or rng.random() < 0.6):
+                count[ctx] += 1
+                out.extend(message_section(lv if rng.random() < 0.8 else rng.choice(LEVELS), "%s %d" % (ctx, count[ctx])))
+            ctx = None
+        elif head.startswith("[") and head.strip("[] ") == "moleculetype":
+            ctx = "block"
+        elif head.startswith("[") and head.strip("[] ") == "link":
+            ctx = "link"
+        out.append(line)
+    return "\n".join(out[:-1]), {"level": lv, "on": on, "sections": count}
+
+
+def message_only_link(resname, atom, lv):
+    """a force-field file with one link that has no interaction: it matches every residue `resname` (its atom `atom`) and only
+    attaches a message - to be given with -f next to a library"""
+    return "\n".join(["[ link ]", 'resname "%s"' % resname, "[ atoms ]", '%s {"resname": "%s"}' % (atom, resname)]
+                     + message_section(lv, "every residue %s" % resname)) + "\n"
 
 
 # --------------------------------------------------------------------------- repository inputs
